@@ -186,7 +186,7 @@ def Msg.inRange : Msg → Bool
   | .partialUpdate changes => changes.all (fun pd => u16 pd.1) && decide (changes.length < 256)
   | .keypress seq pt key => u8 seq && u8 pt && u8 key
   | .setValue seq pt cv lv pos len data =>
-    ((len == 1 && u8 data) || (len == 2 && u16 data)) && u8 seq && u8 pt && u8 cv && u8 lv && u16 pos
+    ((len == 1 && u8 data) || (len == 2 && u16 data)) && (u8 seq && u8 pt && u8 cv && u8 lv && u16 pos)
   | .wcSet seq mode => u8 seq && u8 mode
   | .wcResponse mode => u8 mode
   | .remindersResponse rs => rs.all fun td => u8 td.1 && i16 td.2
@@ -223,5 +223,64 @@ def Msg.orphan : Msg → Bool
 def occurs (lit : Bytes) : Bytes → Bool
   | [] => lit.isPrefixOf []
   | c :: t => lit.isPrefixOf (c :: t) || occurs lit t
+
+/-! ### attribute view of a decoded state (names as in the Python classes) -/
+
+inductive Val
+  | none
+  | int (v : Int)
+  | bool (b : Bool)
+  | bytes (b : Bytes)
+  | pairs (l : List (Int × Int))
+  | changes (l : List (Int × Bytes))
+deriving Repr, DecidableEq
+
+def optInt : Option Int → Val
+  | some v => .int v
+  | Option.none => .none
+
+def optBytes : Option Bytes → Val
+  | some v => .bytes v
+  | Option.none => .none
+
+/-- the attributes a test or a caller reads off the handler after `handle()`, in a fixed order -/
+def Decoded.attrs : Decoded → List (String × Val)
+  | .hello b c s n => [("was_broadcast_discovery", .bool b), ("_client_identifier", optBytes c), ("_spa_identifier", optBytes s),
+      ("_spa_name", optBytes n), ("should_remove_handler", .bool false)]
+  | .packet s d c => [("parms[2]", optBytes s), ("parms[3]", optBytes d), ("packet_content", optBytes c),
+      ("should_remove_handler", .bool false)]
+  | .ping s => [("_sequence", optInt s), ("should_remove_handler", .bool false)]
+  | .version s v r =>
+    [("_sequence", optInt s), ("en_build", optInt (v.map (·.1))), ("en_major", optInt (v.map (·.2.1))),
+     ("en_minor", optInt (v.map (·.2.2.1))), ("co_build", optInt (v.map (·.2.2.2.1))), ("co_major", optInt (v.map (·.2.2.2.2.1))),
+     ("co_minor", optInt (v.map (·.2.2.2.2.2))), ("should_remove_handler", .bool r)]
+  | .channel s v r => [("_sequence", optInt s), ("channel", optInt (v.map (·.1))), ("signal_strength", optInt (v.map (·.2))),
+      ("should_remove_handler", .bool r)]
+  | .config s v r => [("_sequence", optInt s), ("plateform_key", optBytes (v.map (·.1))), ("config_version", optInt (v.map (·.2.1))),
+      ("log_version", optInt (v.map (·.2.2))), ("should_remove_handler", .bool r)]
+  | .status s st ln nx d => [("sequence", optInt s), ("start", optInt st), ("length", optInt ln), ("next", optInt nx),
+      ("data", optBytes d), ("should_remove_handler", .bool false)]
+  | .partialStatus s ch _ => [("sequence", optInt s), ("changes", .changes ch), ("should_remove_handler", .bool false)]
+  | .pack s pt ik kc isv pos nd r => [("_sequence", optInt s), ("pack_type", optInt pt), ("is_key_press", .bool ik),
+      ("keycode", optInt kc), ("is_set_value", .bool isv), ("position", optInt pos), ("new_data", optBytes nd),
+      ("should_remove_handler", .bool r)]
+  | .watercare s m sc r => [("_sequence", optInt s), ("mode", optInt m), ("schedule", .bool sc), ("should_remove_handler", .bool r)]
+  | .reminders s rs r => [("_sequence", optInt s), ("reminders", .pairs rs), ("should_remove_handler", .bool r)]
+  | .firmware s r => [("_sequence", optInt s), ("should_remove_handler", .bool r)]
+  | .rferr n => [("total_error_count", .int (Int.ofNat n)), ("should_remove_handler", .bool false)]
+  | .nothing => [("should_remove_handler", .bool false)]
+
+/-- property aliases of the hello handler -/
+def attrAlias (a : String) : String :=
+  if a == "client_identifier" then "_client_identifier" else if a == "spa_identifier" then "_spa_identifier"
+  else if a == "spa_name" then "_spa_name" else a
+
+def Decoded.get (d : Decoded) (a : String) : Option Val := d.attrs.lookup (attrAlias a)
+
+/-- a pinned decode vector holds: `handle` succeeds and every asserted attribute has the asserted value -/
+def checkDecodeVector (v : String × Handler × Bytes × List (String × Val)) : Bool :=
+  match decode v.2.1 v.2.2.1 with
+  | .ok d => v.2.2.2.all fun a => d.get a.1 == some a.2
+  | .error _ => false
 
 end GeckoModel.Wire
